@@ -254,6 +254,52 @@ func c09(c *core.Ctx) {
 		k.Count("below_minimum_retried", 1)
 		k.Distinct(fmt.Sprintf("gen|%d", k.Index%16))
 	})
+	// runs of k consecutive below-minimum draws followed by good ones: the result is never a rejected draw
+	c.Family("low-draw-runs", c.N(64, 2000), func(k *core.Case) {
+		run := 1 + k.Index%64
+		var parts []io.Reader
+		for i := 0; i < run; i++ {
+			low := make([]byte, 256)
+			switch k.R.Intn(3) {
+			case 0: // zero
+			case 1:
+				copy(low[240:], k.R.Bytes(16)) // < 2^128
+			default:
+				low[255] = byte(k.R.Intn(3))
+			}
+			parts = append(parts, bytes.NewReader(low))
+		}
+		parts = append(parts, core.NewRng(k.R.U64()))
+		var x *big.Int
+		var err error
+		k.Eval(1)
+		pn := core.Try(func() { mon.WithRand(io.MultiReader(parts...), func() { x, err = security.GenerateRandomNumber() }) })
+		w := M{"consecutive_below_minimum_draws": run}
+		if pn != nil {
+			k.Violate("panic", "low-draws: "+pn.Sig(), "panic", panicData(pn, w))
+			return
+		}
+		if err == nil && (x == nil || x.Cmp(min) < 0 || x.Cmp(max) >= 0) {
+			k.Violate("bounds", "rejected-draw-returned-as-exponent", fmt.Sprintf("after %d below-minimum draws GenerateRandomNumber returned %v with a nil error", run, x), w)
+			return
+		}
+		// the same through the DH plumbing: the public value must not be that of a tiny exponent
+		parts = parts[:0]
+		for i := 0; i < run; i++ {
+			parts = append(parts, bytes.NewReader(make([]byte, 256)))
+		}
+		parts = append(parts, core.NewRng(k.R.U64()))
+		ini := newInfoKey(0, 0, 0, k.Index%2)
+		var pub []byte
+		k.Eval(1)
+		mon.WithRand(io.MultiReader(parts...), func() { pub, _, err = security.CalculateDiffieHellmanMaterials(ini, []byte{2}) })
+		if err == nil && leadingZeros(pub) > len(pub)-17 {
+			k.Violate("bounds", "rejected-draw-used-as-DH-secret", fmt.Sprintf("public value %x... is 2^x for a tiny x", pub[len(pub)-8:]), w)
+			return
+		}
+		k.Count("low_draw_runs", 1)
+		k.Distinct(fmt.Sprintf("lowrun|%d", run))
+	})
 	c.Family("random-source-faults", c.N(24, 600), func(k *core.Case) {
 		mode := k.Index % 3
 		for failAt := 0; failAt < 6; failAt++ {
@@ -303,7 +349,7 @@ func c09(c *core.Ctx) {
 			}
 		}
 	})
-	c.Require("lz_shared_1", "lz_shared_100+", "lz_public_100+", "below_minimum_retried", "fault_at_read_0", "lz_shared_searched")
+	c.Require("low_draw_runs", "lz_shared_1", "lz_shared_100+", "lz_public_100+", "below_minimum_retried", "fault_at_read_0", "lz_shared_searched")
 }
 
 // ---------------------------------------------------------------------------
